@@ -1244,6 +1244,16 @@ def run(tier):
               'no function of the tree core that reads SMT-LIB text recurses over the nesting depth (directly, through helpers, generators, tuple comparison, deepcopy or the generic pickler)',
               [('nodeio', 'parse_smtlib')],
               'the reader raises RecursionError instead of returning the nesting structure of a deeply nested input')
+    from .. import ctortext
+    chk.guard(ctortext.report_ctor, chk, prog, 'C08.R12',
+              'the leaf constructor stores the text it is given (state, '
+              'children, or the argument itself through str()): the reader '
+              'builds every leaf with it',
+              'the token texts returned by the reader differ from the text of the file (and two different texts become equal nodes)')
+    chk.guard(ctortext.report_asserts, chk, prog, 'C08.R13',
+              'the reader and the constructors accept every leaf text: their '
+              'assertions test types and arities only',
+              'the reader aborts on standard-conforming text instead of returning its structure')
     extra = None
     if tier == 'thorough':
         from .. import selftest
